@@ -48,6 +48,10 @@ class Model:
             if val is None:
                 continue
             consts = [y.value for y in ast.walk(val) if isinstance(y, ast.Constant) and isinstance(y.value, str)]
+            if isinstance(val, ast.BinOp) and not consts:
+                # the marker name may be a module-level constant: its value is in the normal form of the right operand
+                t = fa.sym.term(val.right, n)
+                consts = [t[1]] if t[0] == "const" and isinstance(t[1], str) else []
             if any("start" in c for c in consts) and isinstance(val, ast.BinOp):
                 self.start, self.dst = var, getattr(val.left, "id", None)
             if any("end" in c for c in consts) and isinstance(val, ast.BinOp):
@@ -98,7 +102,9 @@ class Model:
             if nm == "mkdir" and isinstance(f, ast.Attribute) and self._role(f.value) == "dst":
                 return ("mkdir", "")
             if nm == "open" and roles and roles[0] in ("start", "end"):
-                mode = next((a.value for a in c.args[1:2] if isinstance(a, ast.Constant)), "r")
+                mode = next((a.value for a in c.args[1:2] if isinstance(a, ast.Constant)), None)
+                if mode is None:
+                    mode = next((k.value.value for k in c.keywords if k.arg == "mode" and isinstance(k.value, ast.Constant)), "r")
                 if "w" in str(mode) or "a" in str(mode) or "x" in str(mode):
                     return ("create-" + roles[0], "")
             if nm == "touch" and isinstance(f, ast.Attribute) and self._role(f.value) in ("start", "end"):
@@ -129,6 +135,27 @@ def _where(m: "Model", n: int) -> str:
 class Run:
     def __init__(self, state, crash_points, returns, raises, violations):
         self.state, self.crash_points, self.returns, self.raises, self.violations = state, crash_points, returns, raises, violations
+
+
+def _eval_local(e: ast.AST, loc: dict):
+    """Truth value of a test over locals that hold a known constant on this path (None: not determined)."""
+    if isinstance(e, ast.Name) and e.id in loc:
+        return bool(loc[e.id])
+    if isinstance(e, ast.Constant):
+        return bool(e.value)
+    if isinstance(e, ast.UnaryOp) and isinstance(e.op, ast.Not):
+        v = _eval_local(e.operand, loc)
+        return None if v is None else (not v)
+    if isinstance(e, ast.BoolOp):
+        vals = [_eval_local(v, loc) for v in e.values]
+        if isinstance(e.op, ast.And):
+            if any(v is False for v in vals):
+                return False
+            return True if all(v is True for v in vals) else None
+        if any(v is True for v in vals):
+            return True
+        return False if all(v is False for v in vals) else None
+    return None
 
 
 def execute(m: Model, start_state) -> Run:
@@ -209,11 +236,27 @@ def execute(m: Model, start_state) -> Run:
             facts = {}
             v = fa.ret_ast(n)[0]
             if isinstance(v, ast.Call):
+                # keyword, positional (dataclass field order) and **dict(...) / **{...} spellings of the result's fields
+                pairs = []
+                r = m.prog.resolve_expr(m.fi.module, v.func) if isinstance(v.func, (ast.Name, ast.Attribute)) else None
+                fields = list(r[1].annotations) if r and r[0] == "class" else []
+                for i, a in enumerate(v.args):
+                    if i < len(fields) and not isinstance(a, ast.Starred):
+                        pairs.append((fields[i], a))
                 for kw in v.keywords:
-                    if isinstance(kw.value, ast.Constant):
-                        facts[kw.arg] = kw.value.value
-                    elif isinstance(kw.value, ast.Name):
-                        facts[kw.arg] = dict(loc).get(kw.value.id, "?")
+                    if kw.arg is not None:
+                        pairs.append((kw.arg, kw.value))
+                    elif isinstance(kw.value, ast.Call) and isinstance(kw.value.func, ast.Name) and kw.value.func.id == "dict" \
+                            and not kw.value.args:
+                        pairs += [(k2.arg, k2.value) for k2 in kw.value.keywords if k2.arg is not None]
+                    elif isinstance(kw.value, ast.Dict):
+                        pairs += [(k2.value, v2) for k2, v2 in zip(kw.value.keys, kw.value.values)
+                                  if isinstance(k2, ast.Constant) and isinstance(k2.value, str)]
+                for name_, val_ in pairs:
+                    if isinstance(val_, ast.Constant):
+                        facts[name_] = val_.value
+                    elif isinstance(val_, ast.Name):
+                        facts[name_] = dict(loc).get(val_.id, "?")
             returns.append((nxt_states[0], facts, eff, n))
             continue
         if nd.kind == "stmt" and isinstance(nd.ast, ast.Raise):
@@ -230,6 +273,10 @@ def execute(m: Model, start_state) -> Run:
                         continue
                 elif nd.kind == "test" and isinstance(nd.owner, ast.Assert):
                     if True not in labels:
+                        continue
+                elif nd.kind == "test" and _eval_local(nd.ast, dict(loc)) is not None:
+                    # a flag set to a constant on the way here decides the branch ('should_copy = False ... if not should_copy')
+                    if _eval_local(nd.ast, dict(loc)) not in labels:
                         continue
                 elif "exc" in labels and len(labels) == 1:
                     continue
